@@ -6,7 +6,13 @@ import c02
 
 CONFIGS = ['prod']
 EXPLANATION = (
-    'Decided clauses: N1 a membership update REPLACES the selector\'s per-data-centre layout (wholesale assignment, or clear / retain '
+    'SEM (abstract interpretation of the MIR by the checker\'s own interpreter, no code of the repository runs): DCAwareSelector::select_nodes, with select_n_nodes and '
+    'NodeCycler, is interpreted on a bounded family of data-centre layouts (quick: 21 layouts up to 4 data centres, every rotating-cursor position = whatever selections were '
+    'made before, the local node first / last in the first / last data centre, all 8 levels, every random draw of data centres; thorough: up to 4 x 4 nodes). Node '
+    'addresses are opaque names, counts are concrete integers. Per case: Ok(sel) must hold no duplicates, only members other than the local node, at least as many as the '
+    'level requires (exactly n for One / Two / Three); NotEnoughNodes only when fewer other live nodes exist than required. This is exhaustive over the family, not a proof '
+    'for every layout; it subsumes N3-N6 below, which are evaluated only when a construct is outside the interpreter\'s vocabulary. '
+    'Structural clauses: N1 a membership update REPLACES the selector\'s per-data-centre layout (wholesale assignment, or clear / retain '
     'before the inserts) so that departed data centres are never selected again; N2 the result cache is cleared on every path through the '
     'update arm; N3 every bulk collection site of DCAwareSelector::select_nodes filters the local node (the iterator type handed to '
     'extend contains a Filter whose closure is `item != local_node`); N4 select_n_nodes returns Ok only on the edge selected.len() >= n. '
@@ -378,6 +384,10 @@ def check_N6(ctx, facts):
 def check(ctx):
     facts = ctx.facts('prod')
     check_actor(ctx, facts)
-    check_N3(ctx, facts)
-    check_N6(ctx, facts)
-    check_N4(ctx, facts)
+    # SEM: select_nodes (with select_n_nodes and NodeCycler) interpreted on a family of concrete layouts, for every cursor position,
+    # every level and every random draw (selector_abs); subsumes N3-N6, which are evaluated only when a construct is not modelled
+    import selector_abs
+    if not selector_abs.check_selector(ctx, facts, 'C15.SEM', ctx.tier):
+        check_N3(ctx, facts)
+        check_N6(ctx, facts)
+        check_N4(ctx, facts)
